@@ -1,5 +1,6 @@
 import FpgoVerif.Proofs.C14Inv
 import FpgoVerif.Proofs.C14Progress
+import FpgoVerif.Proofs.C14Wait
 import FpgoVerif.Gen.Skeletons
 import FpgoVerif.Gen.C15Bodies
 /-! Property theorems for C14 — coroutines pair every YieldFrom with the matching YieldRef, in order, per caller.
@@ -111,15 +112,35 @@ theorem C14_startWithVal {gen cap script v s} (h : Reach gen cap script (some v)
         · simp at hs
       · simp at hs
 
-/-- DoNotation / YieldFromIO return the effect's / the IO's value: the waiter can read a result only after the
-    store and the `Done`, and then it is the stored value -/
-theorem C14_doNotation (v : Nat) : doNotation v = some v := rfl
-theorem C14_wait_reads_stored (st : WgSt) (r : Nat) (h : wgResult st = some r) : st = .signalled r := by
-  cases st <;> simp [wgResult] at h; subst h; rfl
+/-- DoNotation returns the effect's result and YieldFromIO the IO's value, in EVERY interleaving of the calling
+    goroutine (Add; Start/Subscribe; Wait; return result) with the goroutine that runs the effect / OnNext
+    (result = v; Done): whatever is returned is `v` -/
+theorem C14_doNotation {v s r} (h : DnReach v s) (hr : s.m = .ret r) : r = v := dn_ret h hr
 
-/-- IsStarted / IsDone: false,false before Start; true,false while the effect runs; true,true after it returned -/
-theorem C14_flags : flagsTrace.map (fun f => (f.started, f.done)) = [(false, false), (true, false), (true, true)] := by
+/-- … and the call does return: until it has returned and the coroutine is done, some goroutine can step (Wait is
+    released by Done; nothing else blocks) -/
+theorem C14_doNotation_progress {v s} (h : DnReach v s) (hn : (∀ r, s.m ≠ .ret r) ∨ s.e ≠ .fin) :
+    ∃ a s', dnStep v s a = some s' := dn_progress h hn
+
+/-- the driver's `doNotation` (round-robin schedule of the same system) returns v -/
+theorem C14_doNotation_run (v : Nat) : doNotation v = some v := rfl
+
+/-- IsStarted / IsDone in every reachable state: IsStarted ⇔ Start has run (the effect goroutine exists — "becomes
+    true when the effect starts"), IsDone ⇔ the effect has returned and close() has set the flag ("when it returns");
+    never done before started -/
+theorem C14_flags {v s} (h : DnReach v s) :
+    (s.started = true ↔ s.e ≠ .idle) ∧ (s.done = true ↔ s.e = .fin) ∧ (s.done = true → s.started = true) :=
+  dn_flags h
+
+/-- the three observation points of the `flags` case on that system: false,false before Start; true,false while
+    the effect runs; true,true after it returned (a test of the executable model, not the general claim) -/
+theorem C14_flags_trace : flagsTrace.map (fun f => (f.started, f.done)) = [(false, false), (true, false), (true, true)] := by
   decide
+
+/-- non-vacuity: the state in which the caller is blocked in Wait while the effect has stored but not signalled -/
+example : ∃ s, DnReach 7 s ∧ s.m = .m2 ∧ s.e = .e1 ∧ s.wg = 1 :=
+  ⟨dnRun 7 {} [.main, .main, .eff],
+   DnReach.step .eff (DnReach.step .main (DnReach.step .main DnReach.init rfl) rfl) rfl, rfl, rfl, rfl⟩
 
 /-! ### protocol tie: the exact current bodies of the coroutine functions (regenerated on every run) -/
 
